@@ -626,7 +626,9 @@ def run(ctx):
     sys.setrecursionlimit(3000)
     maxpath = 3 if quick else 4
     # C13_FIXED=D1,D3|all: model these deviations as repaired (for checking a patched tree)
-    fx = os.environ.get('C13_FIXED', '')
+    # default: all six are repaired in /repo (fix: commits, see known_findings); C13_FIXED= (empty) models the
+    # code before the repairs
+    fx = os.environ.get('C13_FIXED', 'all')
     fixed = ALLDEV if fx == 'all' else [d for d in fx.split(',') if d]
     if any(d not in ALLDEV for d in fixed):
         raise MachineryError('C13_FIXED: unknown deviation in %r' % fx)
